@@ -76,9 +76,15 @@ func vhAssertionEl(p string, sig int) *vhA {
 		nid.CreateText(p2)
 	} else if vhSplitText && vFlag(p+".NameID.cdata") {
 		// the IdP serialised the value as a CDATA section (same signed value: canonicalisation turns it into text)
-		// (an empty CDATA section is left out: xml-roundtrip-validator v0.1.0 rejects "<![CDATA[]]>", a dependency quirk)
-		vAssume(a.NameID != "")
-		subj.CreateElement("saml:NameID").CreateCData(a.NameID)
+		if vFlag(p + ".NameID.cdata-empty") {
+			// an empty CDATA section: see known finding D11 (xml-roundtrip-validator rejects "<![CDATA[]]>")
+			a.NameID = ""
+			vhEmptyCData = true
+			subj.CreateElement("saml:NameID").CreateCData("")
+		} else {
+			vAssume(a.NameID != "")
+			subj.CreateElement("saml:NameID").CreateCData(a.NameID)
+		}
 	} else {
 		vhText2(subj, "saml:NameID", a.NameID)
 	}
@@ -113,6 +119,9 @@ func vhEncryptedEl(p string, inner *etree.Element) *etree.Element {
 // vhEncLayouts: EncryptedAssertion elements vary their key conveyance (EncryptedKey inside EncryptedData/KeyInfo or
 // detached next to EncryptedData; DigestMethod absent or SHA-256) — set by the harness that wants it.
 var vhEncLayouts bool
+
+// vhEmptyCData: the scenario contains an empty CDATA section (set by vhAssertionEl, read by vhGenuineL)
+var vhEmptyCData bool
 
 // vhInheritPrefix: EncryptedAssertion elements rely on the saml: prefix declared on the Response root instead of
 // re-declaring it (set only for unsigned Responses: a signed one is re-parsed from canonical bytes, which re-declare it)
@@ -786,7 +795,8 @@ func vhGenuine(maxKids int) { vhGenuineL(maxKids, false) }
 func vhGenuineL(maxKids int, layouts bool) {
 	vhSplitText = !layouts
 	vhEncLayouts = layouts
-	defer func() { vhSplitText, vhEncLayouts = false, false }()
+	vhEmptyCData = false
+	defer func() { vhSplitText, vhEncLayouts, vhEmptyCData = false, false, false }()
 	sp := vhOrchSP(false)
 	if !layouts && vFlag("earlier-configuration") {
 		// a long-lived SP whose trust store did not hold the IdP certificate yet when it first validated something
@@ -848,7 +858,7 @@ func vhGenuineL(maxKids int, layouts bool) {
 		vAssert("C08,C11.full-assertion-list-returned-in-order", len(resp.Assertions) == n && vhSameInOrder(resp.Assertions, s.order))
 		return
 	}
-	if vCertRejections() > 0 || vScreenRejections() > 0 {
+	if vCertRejections() > 0 || (vScreenRejections() > 0 && !vhEmptyCData) {
 		return // a dependency outcome the contracts leave open
 	}
 	// specification of "satisfies the profile": judged at the last reading of the SP clock
@@ -866,6 +876,10 @@ func vhGenuineL(maxKids int, layouts bool) {
 		if reads >= 1 {
 			ok = vAnd(ok, vClockAt("sp", reads-1) < vParseNs(a.NotOnOrAfter))
 		}
+	}
+	if vhEmptyCData {
+		vAssert("C08.genuine-response-with-an-empty-cdata-section-is-accepted", vNot(ok))
+		return
 	}
 	vAssert("C08,C11.genuine-response-satisfying-the-profile-is-accepted", vNot(ok))
 }
